@@ -1,5 +1,7 @@
 package gvc
 
+import "strings"
+
 // Hand-written scenario templates (DESIGN 2.8): for obligations whose counterexample lives in ghost state
 // or in the behaviour of an injected dependency, the replay drives the real function through its public
 // or in-package API over a small exhaustive table and compares with the clause's meaning.
@@ -14,6 +16,154 @@ type scenario struct {
 func scenarioFor(short string) (scenario, bool) {
 	s, ok := scenarios[short]
 	return s, ok
+}
+
+// scenarioForObligation: scenarios selected by function and clause text (several clauses of one function need
+// different drivers).
+func scenarioForObligation(o *Obligation) (scenario, bool) {
+	short := shortName(o.Func)
+	for _, s := range clauseScenarios {
+		if s.fn == short && strings.Contains(o.Text, s.clause) {
+			return s.sc, true
+		}
+	}
+	return scenarioFor(short)
+}
+
+type clauseScenario struct {
+	fn, clause string
+	sc         scenario
+}
+
+const gvcDriver = `
+func gvcExec(t *testing.T, dir string, out *bytes.Buffer, opts ...task.ExecutorOption) *task.Executor {
+	t.Helper()
+	all := append([]task.ExecutorOption{task.WithDir(dir), task.WithStdout(out), task.WithStderr(out), task.WithStdin(strings.NewReader("")),
+		task.WithTempDir(task.TempDir{Remote: filepath.Join(dir, ".task"), Fingerprint: filepath.Join(dir, ".task")})}, opts...)
+	e := task.NewExecutor(all...)
+	if err := e.Setup(); err != nil {
+		t.Fatalf("setup: %v", err)
+	}
+	return e
+}
+
+func gvcWrite(t *testing.T, dir, name, content string) {
+	t.Helper()
+	if err := os.WriteFile(filepath.Join(dir, name), []byte(content), 0o644); err != nil {
+		t.Fatal(err)
+	}
+}
+
+func gvcTree(t *testing.T, dir string) string {
+	var b strings.Builder
+	filepath.Walk(dir, func(p string, info os.FileInfo, err error) error {
+		if err == nil {
+			rel, _ := filepath.Rel(dir, p)
+			if info.IsDir() {
+				b.WriteString(rel + "/\n")
+			} else {
+				data, _ := os.ReadFile(p)
+				b.WriteString(rel + ":" + string(data) + "\n")
+			}
+		}
+		return nil
+	})
+	return b.String()
+}
+`
+
+const gvcHeader = `package task_test
+
+import (
+	"bytes"
+	"context"
+	"os"
+	"path/filepath"
+	"strings"
+	"testing"
+
+	"github.com/go-task/task/v3"
+)
+
+var _ = context.Background
+` + gvcDriver
+
+var clauseScenarios = []clauseScenario{
+	{"v3.(*Executor).RunTask$1", "fpTouched ==> cleaned(t)", scenario{pkgRel: "", what: "a run that stops between the fingerprint check and the first command (no terminal for the prompt) leaves the new checksum: the next run skips the task although its commands never ran",
+		src: gvcHeader + `
+func TestGvcReplay(t *testing.T) {
+	dir := t.TempDir()
+	gvcWrite(t, dir, "Taskfile.yml", "version: '3'\ntasks:\n  a:\n    prompt: sure?\n    sources: [src.txt]\n    cmds: [\"echo ran >> out.txt\"]\n")
+	gvcWrite(t, dir, "src.txt", "1")
+	var out bytes.Buffer
+	err := gvcExec(t, dir, &out).Run(context.Background(), &task.Call{Task: "a"})
+	if err == nil {
+		t.Skip("first run was expected to be cancelled (no terminal)")
+	}
+	out.Reset()
+	if err := gvcExec(t, dir, &out, task.WithAssumeYes(true)).Run(context.Background(), &task.Call{Task: "a"}); err != nil {
+		t.Fatalf("second run: %v", err)
+	}
+	if _, err := os.Stat(filepath.Join(dir, "out.txt")); err != nil {
+		t.Fatalf("GVC-REPLAY-REPRODUCED: after a cancelled attempt the next run skipped the task (output: %q)", out.String())
+	}
+}
+`}},
+	{"v3.(*Executor).RunTask$1", "!e.Dry", scenario{pkgRel: "", what: "--dry creates the task's dir",
+		src: gvcHeader + `
+func TestGvcReplay(t *testing.T) {
+	dir := t.TempDir()
+	gvcWrite(t, dir, "Taskfile.yml", "version: '3'\ntasks:\n  a:\n    dir: sub/dir\n    cmds: [\"echo hi\"]\n")
+	before := gvcTree(t, dir)
+	var out bytes.Buffer
+	if err := gvcExec(t, dir, &out, task.WithDry(true)).Run(context.Background(), &task.Call{Task: "a"}); err != nil {
+		t.Fatalf("dry run: %v", err)
+	}
+	if after := gvcTree(t, dir); after != before {
+		t.Fatalf("GVC-REPLAY-REPRODUCED: a dry run changed the project tree:\nbefore:\n%s\nafter:\n%s", before, after)
+	}
+}
+`}},
+	{"v3.(*Executor).ToEditorOutput$1", "arg0", scenario{pkgRel: "", what: "--list --json (ToEditorOutput) writes the fingerprint of every task with sources, so a later run skips a task that never ran",
+		src: gvcHeader + `
+func TestGvcReplay(t *testing.T) {
+	dir := t.TempDir()
+	gvcWrite(t, dir, "Taskfile.yml", "version: '3'\ntasks:\n  a:\n    desc: d\n    sources: [src.txt]\n    cmds: [\"echo ran >> out.txt\"]\n")
+	gvcWrite(t, dir, "src.txt", "1")
+	before := gvcTree(t, dir)
+	var out bytes.Buffer
+	e := gvcExec(t, dir, &out)
+	if _, err := e.ListTasks(task.ListOptions{ListAllTasks: true, FormatTaskListAsJSON: true}); err != nil {
+		t.Fatalf("list: %v", err)
+	}
+	if after := gvcTree(t, dir); after != before {
+		t.Fatalf("GVC-REPLAY-REPRODUCED: listing tasks as JSON changed the project tree:\nbefore:\n%s\nafter:\n%s", before, after)
+	}
+}
+`}},
+}
+
+func init() {
+	clauseScenarios = append(clauseScenarios, clauseScenario{"fingerprint.(*TimestampChecker).OnError", "stampPath", scenario{pkgRel: "", what: "method timestamp: a failed run leaves the stamp file, the next run reports the task up to date",
+		src: gvcHeader + `
+func TestGvcReplay(t *testing.T) {
+	dir := t.TempDir()
+	gvcWrite(t, dir, "Taskfile.yml", "version: '3'\ntasks:\n  a:\n    method: timestamp\n    sources: [src.txt]\n    cmds: [\"test -f ok.txt\", \"echo ran >> out.txt\"]\n")
+	gvcWrite(t, dir, "src.txt", "1")
+	var out bytes.Buffer
+	if err := gvcExec(t, dir, &out).Run(context.Background(), &task.Call{Task: "a"}); err == nil {
+		t.Skip("first run was expected to fail")
+	}
+	gvcWrite(t, dir, "ok.txt", "")
+	out.Reset()
+	if err := gvcExec(t, dir, &out).Run(context.Background(), &task.Call{Task: "a"}); err != nil {
+		t.Fatalf("second run: %v", err)
+	}
+	if _, err := os.Stat(filepath.Join(dir, "out.txt")); err != nil {
+		t.Fatalf("GVC-REPLAY-REPRODUCED: after a failed attempt the next run skipped the task (output: %q)", out.String())
+	}
+}
+`}})
 }
 
 var scenarios = map[string]scenario{
